@@ -277,6 +277,25 @@ impl<'tcx> Cx<'tcx> {
                 pairs.push(("bits", js(&bits.to_string())));
             }
         }
+        // a named constant of tuple type with scalar fields (`const EMPTY: (u32, u32) = (0, 0)`): its field values
+        if let ty::Tuple(tys) = ty.kind() {
+            if !tys.is_empty() && tys.iter().all(|t| matches!(t.kind(), ty::Bool | ty::Char | ty::Int(_) | ty::Uint(_))) {
+                if let Ok(val) = c.const_.eval(self.tcx, env, c.span) {
+                    if let Some(d) = self.tcx.try_destructure_mir_constant_for_user_output(val, ty) {
+                        let mut fs: Vec<String> = Vec::new();
+                        for (fv, fty) in d.fields.iter() {
+                            if let Some(si) = fv.try_to_scalar_int() {
+                                let bits: u128 = si.to_bits_unchecked();
+                                fs.push(obj(vec![("ty", js(&self.tys(*fty))), ("bits", js(&bits.to_string()))]));
+                            }
+                        }
+                        if fs.len() == tys.len() {
+                            pairs.push(("tuple", arr(fs)));
+                        }
+                    }
+                }
+            }
+        }
         pairs.push(("s", js(&self.fix(format!("{}", c.const_)))));
         obj(pairs)
     }
